@@ -272,6 +272,8 @@ def clenshaw_qbfs_der(cs, usq, j=1, alphas=None):
         the alphas array
 
     """
+    # the table is floating point, also on an integer grid (2 - 4 * x wraps around in an unsigned type)
+    usq = np.asarray(usq, dtype=np.result_type(usq, 1.0))
     x = usq
     cs = _as_sequence(cs)
     M = len(cs) - 1
@@ -330,6 +332,9 @@ def compute_z_zprime_Qbfs(coefs, u, usq):
     """
     # clenshaw does its own u^2
     coefs = _as_sequence(coefs)
+    # sag and slope are floating point, also on an integer grid (1 - usq wraps around in an unsigned type)
+    u = np.asarray(u, dtype=np.result_type(u, 1.0))
+    usq = np.asarray(usq, dtype=np.result_type(usq, 1.0))
     alphas = clenshaw_qbfs_der(coefs, usq, j=1)
     if len(coefs) > 1:
         S = 2 * (alphas[0][0] + alphas[0][1])
@@ -382,6 +387,9 @@ def compute_z_zprime_Qcon(coefs, u, usq):
         S, Sprime in Forbes' parlance
 
     """
+    # sag and slope are floating point, also on an integer grid (2 * usq - 1 wraps around in an unsigned type)
+    u = np.asarray(u, dtype=np.result_type(u, 1.0))
+    usq = np.asarray(usq, dtype=np.result_type(usq, 1.0))
     x = 2 * usq - 1
     alphas = jacobi_sum_clenshaw_der(coefs, 0, 4, x=x, j=1)
     S = alphas[0][0]
@@ -1092,6 +1100,8 @@ def clenshaw_q2d_der(cns, m, usq, j=1, alphas=None):
 
     """
     cs = _as_sequence(cns)
+    # the table is floating point, also on an integer grid (the value sweep wraps around in an unsigned type)
+    usq = np.asarray(usq, dtype=np.result_type(usq, 1.0))
     x = usq
     # the radial polynomials depend on |m| only (the sign selects cos/sin)
     m = abs(m)
